@@ -60,5 +60,21 @@ def c6():
     return dg((str(x), [(e.name, str(e.version)) for e in x.tagify().get_dependencies()]))
 
 
-B = {1: c1, 2: c2, 3: c3, 4: c4, 5: c5, 6: c6}
+def c7():
+    # the first escaping call of a process may be for text ...
+    return dg(str(tags.span("1 < 2 & 3", tags.b("x > y"))))
+
+
+def c8():
+    # ... or for an attribute value that holds only quotes / line breaks
+    return dg(str(tags.div(tags.img(alt='say "hi"', title="it's"), data_note="line1\nline2", class_='a"b')))
+
+
+def c5b():
+    t = tags.div({"class": "z y"}, class_="x")
+    t.add_class("w").add_class("v", prepend=True).remove_class("y")
+    return dg((str(t), t.attrs["class"]))
+
+
+B = {1: c1, 2: c2, 3: c3, 4: c4, 5: c5, 6: c6, 7: c7, 8: c8, 9: c5b}
 print(json.dumps([B[c]() for c in order]))
